@@ -39,6 +39,11 @@ Proof. exact instance_allow. Qed.
 Theorem C19_pkg_tables_init_only : pkg_writes_outside_init Gen.Locks.table = [].
 Proof. exact instance_pkg_init_only. Qed.
 
+(* T2: the only package-level objects that any function hands out by pointer are the two identity sentinels
+   listed in Spec/C19.v (a shared default object returned by a constructor helper would appear here) *)
+Theorem C19_pkg_objects_not_handed_out : handout_ok Gen.Locks.table = true.
+Proof. exact instance_handout. Qed.
+
 (* T1 applied to T2 *)
 Theorem C19_readers_race_free : forall tr,
   valid_trace (reader_programs Gen.Locks.table) tr -> race_free tr /\ hb_race_free tr.
